@@ -11,7 +11,7 @@ THEOREMS = ["C07_history_refines", "C07_designs_append_only", "C07_bad_config_re
 ASSUMPTIONS = ["'fresh process-state' of the oracle = objects rebuilt from scratch inside the same worker process "
                "after restoring the default configuration (the correspondence additionally compares the whole "
                "history with the model, which has no hidden state)"]
-RULE = ("histories over a pool of 12 formulas x 4 frames of the operations build-design, evaluate-common, "
+RULE = ("histories over a pool of 14 formulas x 4 frames of the operations build-design, evaluate-common, "
         "evaluate-group and set-config: random histories of length <= 12 and (thorough) all histories of length "
         "<= 3 over a reduced pool; non-trivial = at least one evaluation of an earlier design; distinct = history")
 EXHAUSTIVE = {"quick": False, "thorough": False}
@@ -20,7 +20,9 @@ CASE_TIMEOUT = 120
 FORMULAS = ["y ~ x + f", "y ~ center(x) + g", "y ~ scale(z):f + (1 | g)", "y ~ 0 + f:g + (x | h)",
             "y ~ C(k) + center(x + w) + (0 + x | g)", "y ~ f*h + (1 | g) + (z | g)", "y ~ T(g, 'q') + scale(center(z))",
             "y ~ poly(x, 2) + f + (1 | h)", "y ~ bs(z, df=4) + (center(x) | g)", "y ~ S(f):x + o", "f ~ x + g",
-            "y ~ standardize(w) + C(f, Sum) + (1 | g:h)"]
+            "y ~ standardize(w) + C(f, Sum) + (1 | g:h)",
+            # interactions whose lower-order margins are absent: formulae inserts helper terms of several factors
+            "y ~ f:g:h", "y ~ x + f:h:g:x"]
 MODES = ["error", "warning", "silent", "bogus", "warn", "", "err"]
 # a formula that calls a user function taken from extra_namespace; builds that use it pass one of two
 # different definitions of tr, and every build of a history receives the SAME Environment object as env=
@@ -103,7 +105,7 @@ def gen(rng, tier):
         cases.append({"frames": _pool(rng), "ops": ops, "kind": "namespace-array"})
     # a share of short histories is additionally compared with a brand-new interpreter per operation
     for i in range(60 if tier == "thorough" else 12):
-        ops = [["build", rng.choice([7, 8, 1, 4, 6]), 0], ["build", rng.choice([7, 8, 1, 4, 6]), 3],
+        ops = [["build", rng.choice([7, 8, 1, 4, 6, 12, 13]), 0], ["build", rng.choice([7, 8, 1, 4, 6, 12, 13]), 3],
                [rng.choice(["common", "group"]), 1, rng.randrange(4)]]
         cases.append({"frames": _pool(rng), "ops": ops, "kind": "fresh-process", "fresh_process": True})
     if tier == "thorough":
@@ -321,6 +323,9 @@ def _execute_in_new_process(single):
             "c = json.loads(sys.stdin.read()); o, p = C07._execute(c); print('@@' + json.dumps(o))"
             % ([p for p in sys.path if p and ("harness" in p or p == os.environ.get("VERIF_REPO", "/repo") or "repo" in p or "evalwt" in p or "seed" in p)],))
     env = dict(os.environ)
+    # a new interpreter of a real user has its own string-hash seed (and its own object addresses): what a design
+    # is must not depend on either
+    env["PYTHONHASHSEED"] = str(1 + len(json.dumps(single)) % 211)
     r = subprocess.run([sys.executable, "-c", code], input=json.dumps(single), capture_output=True, text=True,
                        timeout=120, env=env)
     for line in r.stdout.splitlines():
